@@ -13,7 +13,7 @@ Definition C19_full : Prop :=
   (* handshake: accepted only for a remote entitled to the key that is then bound; otherwise nothing *)
   (forall ch lk t r ev, spec_handshake ch t r (obs_handshake (init_connection ch lk t r ev)) = true) /\
   (* an invitation is consumed at most once, only for this application, only if it exists *)
-  (forall app me mk ops, spec_invites app ops (run_ops 1 (init_pm app me mk) ops) = true) /\
+  (forall app me mk ops, ops_ok 1 (n_creates ops) ops = true -> spec_invites app ops (run_ops 1 (init_pm app me mk) ops) = true) /\
   (* both sides derive the same token, for every pair of key materials *)
   (forall a b, token_of a (s_pub b) = token_of b (s_pub a)).
 
@@ -48,47 +48,30 @@ Example C19_handshake_nonvacuous :
 Proof. exact handshake_nonvacuous. Qed.
 Print Assumptions C19_handshake_nonvacuous.
 
-(* (3) invitations. HOLDS since fix 2163820 (before it: refuted, one owned invitation was consumed by
-   two keys), for every history of table operations: an invitation this instance created is consumed
-   at most once *)
-Theorem C19_invite_holds : forall app me mk ops inv,
-  (succw false inv ops (run_ops 1 (init_pm app me mk) ops) <= 1)%nat.
+(* (3) invitations. HOLDS at full strength since fixes 2163820 and 1e2cdf6 (before them: refuted — an
+   owned invitation was consumed by two keys; an invitation accepted twice was consumed twice), for
+   every history of table operations: an invitation, created or received, accepted once or several
+   times, is consumed only while it is pending (created / accepted and not consumed since) and a
+   consumption ends it; it is accepted only for this application; a lookup answers an allowed-peer
+   entry only for the claimed key; the token of an invitation that is not pending is unknown.
+   (ops_ok is about the encoding only: a received invitation never carries the id of an invitation
+   this instance creates later — ids are fresh random uids.) *)
+Theorem C19_invite_holds : forall app me mk ops, ops_ok 1 (n_creates ops) ops = true ->
+  spec_invites app ops (run_ops 1 (init_pm app me mk) ops) = true.
 Proof. exact invite_holds. Qed.
 Print Assumptions C19_invite_holds.
 
-(* the former witness (= the harness' first directed case) now passes the oracle *)
-Example C19_invite_witness_now_holds :
+(* the former witnesses (= the harness' directed cases) now pass the oracle, and the oracle still
+   refuses what the unrepaired code answered on them *)
+Example C19_invite_witnesses_now_hold :
   run_C19 (CInvites 1 me0 1 twice) = [1; 1; 2; 1; 0; 0; 1; 2; 0; 0]%Z /\
-  successes 1 twice (run_C19 (CInvites 1 me0 1 twice)) = 1%nat /\
   spec_C19 (CInvites 1 me0 1 twice) (run_C19 (CInvites 1 me0 1 twice)) = true /\
-  known_C19 (CInvites 1 me0 1 twice) = [].
-Proof. exact invite_witness_now_holds. Qed.
-Print Assumptions C19_invite_witness_now_holds.
-
-(* every invitation, created or received, every history: consumed at most as often as it was
-   registered in the table (created ones are registered once: ids are fresh) *)
-Theorem C19_invite_consumed_le_registered : forall app me mk ops inv,
-  (successes inv ops (run_ops 1 (init_pm app me mk) ops) <= registrations app inv ops)%nat.
-Proof. exact consumed_le_registrations. Qed.
-Print Assumptions C19_invite_consumed_le_registered.
-
-(* ... and accept_invite registers the same invitation again when it is called twice with it:
-   REFUTED for received invitations (class 3; closed witness = the harness' directed case) *)
-Theorem C19_reregistered_refuted :
-  run_C19 (CInvites 1 me0 1 accepted_twice) = [1; 0; 1; 0; 3; 1; 3; 1; 0; 0]%Z /\
-  successes 7 accepted_twice (run_C19 (CInvites 1 me0 1 accepted_twice)) = 2%nat /\
-  spec_C19 (CInvites 1 me0 1 accepted_twice) (run_C19 (CInvites 1 me0 1 accepted_twice)) = false /\
-  known_C19 (CInvites 1 me0 1 accepted_twice) = [3]%Z.
-Proof. exact reregistered_refuted. Qed.
-Print Assumptions C19_reregistered_refuted.
-
-(* for every history: an invitation is accepted only for this application, a lookup answers an
-   allowed-peer entry only for the claimed key, and a token of an invitation that was never created /
-   accepted is unknown *)
-Theorem C19_table_holds : forall app me mk ops,
-  spec_ops app [] ops (run_ops 1 (init_pm app me mk) ops) = true.
-Proof. exact table_holds. Qed.
-Print Assumptions C19_table_holds.
+  run_C19 (CInvites 1 me0 1 accepted_twice) = [1; 0; 1; 0; 3; 1; 0; 0; 0; 0]%Z /\
+  spec_C19 (CInvites 1 me0 1 accepted_twice) (run_C19 (CInvites 1 me0 1 accepted_twice)) = true /\
+  spec_C19 (CInvites 1 me0 1 twice) [1; 1; 2; 1; 2; 1; 1; 2; 1; 3]%Z = false /\
+  spec_C19 (CInvites 1 me0 1 accepted_twice) [1; 0; 1; 0; 3; 1; 3; 1; 0; 0]%Z = false.
+Proof. exact invite_witnesses_now_hold. Qed.
+Print Assumptions C19_invite_witnesses_now_hold.
 
 (* (4) tokens: the same on both sides (Diffie-Hellman commutes) unless two DIFFERENT secrets have the
    SAME public key; stated for the abstract scheme and for the executable instance *)
@@ -108,7 +91,7 @@ Theorem C19_token_refuted :
 Proof. exact token_sym_refuted. Qed.
 Print Assumptions C19_token_refuted.
 
-(* (5) the same, about the functions the harness evaluates: outside the two open classes (2, 3) the
+(* (5) the same, about the functions the harness evaluates: outside the one open class (2) the
    property's oracle holds on everything the model can observe — every remote behaviour, every
    history of table operations, every family of secrets *)
 Theorem C19_outside_known : forall c, case_ok c -> known_C19 c = [] -> spec_C19 c (run_C19 c) = true.
